@@ -220,6 +220,33 @@ func C09(c *Ctx) {
 			}
 		}
 		r.Floor("R09.3", "currentBlockHash writers", n, 2)
+		// after a rollback the new head (source of currentHeight/currentBlockHash) is the block at the rollback target
+		if rbk := c.P.Fn(execPrefix + "rollbackBlocks"); rbk != nil {
+			var target string
+			for _, call := range core.Calls(rbk) {
+				if o := core.CalleeObj(call); o != nil && o.Name() == "Rollback" {
+					target = heightExpr(rbk, core.Arg(call, 0), 0)
+				}
+			}
+			nHead := 0
+			for _, in := range sites(rbk, storesToField("BlockExecutor", "currentBlockHash")) {
+				st := in.(*ssa.Store)
+				_, _, blk, ok := core.FieldOf(st.Val)
+				if !ok {
+					continue
+				}
+				nHead++
+				head := ""
+				for _, v := range varValues(rbk, blk) {
+					if cl, idx := core.CallOf(v); cl != nil && idx == 0 && core.CalleeObj(cl) != nil && core.CalleeObj(cl).Name() == "GetBlock" {
+						head = heightExpr(rbk, core.Arg(cl, 0), 0)
+					}
+				}
+				r.Check(target != "" && head == target, "R09.3", "rollbackBlocks: new head is the block at the rollback target", c.P.Pos(in.Pos()), "head = GetBlock("+head+"), ledger.Rollback("+target+")",
+					"after the ledger is rolled back to height "+target+" the executor continues from the block at height "+head+": the parent hash of the re-executed block is not the hash of the retained head")
+			}
+			r.Floor("R09.3", "head assignments in rollbackBlocks", nHead, 1)
+		}
 
 		// R09.4
 		var txArg, applyArg, rcptVal ssa.Value
@@ -292,4 +319,75 @@ func C09(c *Ctx) {
 		}
 		r.Check(shape(persist) && shape(gic), "R09.5", "interchain count: persist and rollback use sum(len(Counter[k].Slice))", c.P.Pos(persist.Pos()), "both sides sum len(Slice) over InterchainMeta.Counter", "persist and rollback do not compute the interchain count the same way")
 	}
+}
+
+// varValues returns the values a (possibly closure-captured) local variable
+// may hold: v itself when it is not a variable load, otherwise every value
+// stored to the variable in the function or its closures.
+func varValues(fn *ssa.Function, v ssa.Value) []ssa.Value {
+	id := core.VarIdentity(v)
+	al, ok := id.(*ssa.Alloc)
+	if !ok {
+		return []ssa.Value{core.Strip(v)}
+	}
+	var out []ssa.Value
+	for _, f := range core.WithClosures(fn) {
+		for _, b := range f.Blocks {
+			for _, in := range b.Instrs {
+				if st, ok := in.(*ssa.Store); ok && core.VarIdentity(st.Addr) == ssa.Value(al) {
+					out = append(out, st.Val)
+				} else if ok && st.Addr == ssa.Value(al) {
+					out = append(out, st.Val)
+				}
+			}
+		}
+	}
+	if len(out) == 0 {
+		return []ssa.Value{core.Strip(v)}
+	}
+	return out
+}
+
+// heightExpr renders a block-height expression canonically, using the axiom
+// GetBlock(h).Height() == h: "H(newBlock)-1", "field currentHeight-1", ...
+func heightExpr(fn *ssa.Function, v ssa.Value, d int) string {
+	if d > 6 || v == nil {
+		return "?"
+	}
+	v = core.Strip(v)
+	switch x := v.(type) {
+	case *ssa.BinOp:
+		return heightExpr(fn, x.X, d+1) + x.Op.String() + heightExpr(fn, x.Y, d+1)
+	case *ssa.Const:
+		return x.Value.ExactString()
+	case *ssa.Parameter:
+		return x.Name()
+	case *ssa.Call:
+		o := core.CalleeObj(x)
+		if o != nil && o.Name() == "Height" && len(x.Call.Args) == 1 {
+			recv := x.Call.Args[0]
+			for _, val := range varValues(fn, recv) {
+				if cl, idx := core.CallOf(val); cl != nil && idx == 0 && core.CalleeObj(cl) != nil && core.CalleeObj(cl).Name() == "GetBlock" {
+					return heightExpr(fn, core.Arg(cl, 0), d+1)
+				}
+			}
+			for _, val := range varValues(fn, recv) {
+				if p, ok := core.Strip(val).(*ssa.Parameter); ok {
+					return "H(" + p.Name() + ")"
+				}
+			}
+			if p, ok := core.Strip(recv).(*ssa.Parameter); ok {
+				return "H(" + p.Name() + ")"
+			}
+			if fv, ok := core.Strip(recv).(*ssa.FreeVar); ok {
+				return "H(" + fv.Name() + ")"
+			}
+			return "H(?)"
+		}
+		return core.CalleeName(x)
+	}
+	if _, f, _, ok := core.FieldOf(v); ok {
+		return "field " + f
+	}
+	return "?"
 }
